@@ -91,6 +91,8 @@ def max_flow[Node](
                 hops=len(path) - 1,
                 partial_cancel=any(0 < flow[v][u] < path_flow for u, v in zip(path, path[1:])),
                 full_cancel=any(flow[v][u] >= path_flow > 0 for u, v in zip(path, path[1:])),
+                cancel_hops=[(u, v) for u, v in zip(path, path[1:]) if flow[v][u] > 0],
+                push_hops=[(u, v) for u, v in zip(path, path[1:]) if flow[v][u] < path_flow],
             )
 
         for u, v in zip(path, path[1:]):
